@@ -27,6 +27,7 @@ def run(ctx, rep):
     _strunits.marker_radix(F, rep)
     domain_probes(F, rep)
     float_part_probes(F, rep)
+    positions_not_text(F, rep)
     # `+` concatenation and `*` repetition are computed by the interpreter's operator implementations (text of a number = its value's, not its spelling's):
     # the folder hands back nothing but Numbers out of the compared operator tables
     from props import C06 as _c06
@@ -34,6 +35,32 @@ def run(ctx, rep):
     if _casts is not None:
         _casts.run_c14(F, rep)
 
+
+
+SEARCHES = ("::replace", "::replacen", "::find", "::rfind", "::matches", "::match_indices", "::split", "::splitn", "::rsplit", "::split_once",
+            "::rsplit_once", "::strip_prefix", "::strip_suffix", "::trim_matches", "::trim_start_matches", "::trim_end_matches", "::contains",
+            "::starts_with", "::ends_with")
+
+
+def positions_not_text(F, rep, rule="C14.by-position"):
+    """substring(a, b), insert(s, i) and delete(a, b) name a place in the receiver by position.  Their arms build the result from the receiver's
+    slices at those positions; an arm that takes the text at the position and then *searches* the receiver for it (`s.replacen(&s[a..b], "", 1)`)
+    acts on the first occurrence of that text, not on the place - `"abcabc".delete(3, 5)` loses its first `ab`.  Read from the calls on the
+    successful paths of each arm (abstract run of BuiltInFunction::run per variant)."""
+    B = _builtins.Builtins(F)
+    n = 0
+    for v, what in (("StrDelete", "delete(a, b)"), ("StrInsert", "insert(s, i)"), ("StrSubstring", "substring(a, b)")):
+        r = B.arm(v, "Str")
+        key = "%s|%s" % (rule, v)
+        label = "str.%s works on the place it is given, not on the first occurrence of the text found there" % what
+        if r["undecided"] or not r["paths"]:
+            rep.ob(rule, label, "undecided", "arm not read: %s" % r["undecided"][:2], None, fn=_builtins.BIF + "::run", key=key)
+            continue
+        n += 1
+        found = sorted({mir.short(c) for c in r["calls"] if mir.strip_generics(c).endswith(SEARCHES) and ("str" in c or "String" in c)})
+        rep.ob(rule, label, "violated" if found else "ok",
+               ("the arm calls %s on its successful paths: a text search over the receiver" % found) if found else "", None, fn=_builtins.BIF + "::run", key=key)
+    rep.floor(rule + " position-based string built-ins read", n, 3)
 
 
 def domain_probes(F, rep):
